@@ -19,7 +19,7 @@ EXPLANATION = (
     " C20-b also requires every encoder result that carries a dynamic-table index (Relative, PostBase, Inserted, Duplicated, InsertedWith*NameRef) to be tracked by track_ref on the same path.")
 # every anchor of these rules lives in the h3 crate: thorough tier repeats them on the feature-less build
 EXTRA_CONFIGS = ["h3-plain"]
-RULES = "C20-a capacity guard (A2/A3); C20-b eviction guarded by references, scan stops at the first referenced entry, every index the encoder hands out is tracked and reported as the section's required reference, evict cleans both lookup maps (A3/A4/A10); C20-c instruction codecs (A11 + decision lists); C20-d section prefix: get() inverts new() and equals RFC 9204 4.5.1.1 over small table states (extracted-expression evaluation); C20-c also: a parsed encoder instruction is applied before the next one is parsed"
+RULES = "C20-a capacity guard (A2/A3); C20-b eviction guarded by references, scan stops at the first referenced entry, every index the encoder hands out is tracked and reported as the section's required reference, evict cleans both lookup maps (A3/A4/A10); C20-c instruction codecs (A11 + decision lists); C20-d section prefix: get() inverts new() and equals RFC 9204 4.5.1.1 over small table states (extracted-expression evaluation), relative(i) = relative_base(inserted, i) = the i-th newest live entry over small states; C20-c also: a parsed encoder instruction is applied before the next one is parsed"
 
 HERE = os.path.dirname(os.path.dirname(os.path.abspath(__file__)))
 WIRE = json.load(open(os.path.join(HERE, "ref", "rfc9204_wire_formats.json")))
@@ -386,4 +386,58 @@ def run(ctx):
                         badr.append((maxe, total, enc, got, want))
         ctx.check(not badr, "C20-d", g.key, "Required Insert Count reconstruction = RFC 9204 4.5.1.1 on every valid encoding (%d cases)" % m,
                   "reconstruction differs from RFC 9204 4.5.1.1 for (max_entries, total inserts, encoded count) = %s" % badr[:3], "%d cases" % m)
+    # ------------------------------------------------------------ C20-d index translation: sibling agreement over small table states
+    # RFC 9204 3.2.5: a relative index in an encoder instruction counts back from the insertion point, i.e. it is the relative index
+    # under Base = number of insertions. `relative(i)` and `relative_base(inserted, i)` are two implementations of that one mapping and
+    # must agree (result and refusal) for every small state (inserted, dropped, index); evaluated on the extracted expressions
+    V = Q + "vas::VirtualAddressSpace::"
+
+    def ev_vas(name, st, args, depth=0):
+        body_ = prog.one(V + name)
+        if body_ is None or depth > 3:
+            return None
+
+        def sub(v):
+            if v[0] == "param" and v[1] == 1 and len(v[2]) == 1 and v[2][0].lstrip(".") in st:
+                return st[v[2][0].lstrip(".")]
+            if v[0] == "param" and v[1] >= 2 and not v[2] and v[1] - 2 < len(args):
+                return args[v[1] - 2]
+            if v[0] == "call" and v[1].startswith(V) and v[2] and v[2][0][0] == "param" and v[2][0][1] == 1:
+                inner = [expr.fold(a, consts, sub) for a in v[2][1:]]
+                if None in inner:
+                    return None
+                r_ = ev_vas(pa.short(v[1]), st, inner, depth + 1)
+                return r_ if isinstance(r_, int) else None
+            return None
+        outs = set()
+        for p in expr.decide([p for p in ru.all_paths(ctx, "C20-d", body_) if p.end == "return"], consts, sub):
+            if any(expr.test_holds(t, consts, sub) is None for t in p.tests if t[3][0] != "discr"):
+                return None
+            r_ = p.ret
+            if r_ is not None and r_[0] == "call" and r_[1].startswith(V):
+                inner = [expr.fold(a, consts, sub) for a in r_[2][1:]]
+                outs.add(None if None in inner else ev_vas(pa.short(r_[1]), st, inner, depth + 1))
+            elif p.ret_shape().startswith("Err("):
+                outs.add("Err")
+            elif r_ is not None and r_[0] == "agg" and r_[2] == "Ok":
+                outs.add(("Ok", expr.fold(r_[3][0], consts, sub)))
+            else:
+                outs.add(expr.fold(r_, consts, sub) if r_ is not None else None)
+        return next(iter(outs)) if len(outs) == 1 else None
+    if ru.need(ctx, "C20-d", V + "relative") and ru.need(ctx, "C20-d", V + "relative_base"):
+        bad = []
+        nst = 0
+        for ins in range(0, 6):
+            for drp in range(0, ins + 1):
+                st = {"inserted": ins, "dropped": drp, "delta": ins - drp}
+                for i in range(0, 7):
+                    nst += 1
+                    a_, b_ = ev_vas("relative", st, [i]), ev_vas("relative_base", st, [ins, i])
+                    want = ("Ok", ins - drp - i - 1) if (ins - drp > 0 and i < ins - drp) else "Err"
+                    if a_ is None or b_ is None or a_ != b_ or a_ != want:
+                        bad.append((ins, drp, i, a_, b_, want))
+        ctx.check(not bad, "C20-d", V + "relative", "relative(i) = relative_base(inserted, i) = position of the i-th newest live entry",
+                  "for (inserted, dropped, index) the two translations give (relative, relative_base(inserted, ..), expected) = %s (None: could not be "
+                  "evaluated): after an eviction an encoder instruction that names an entry by relative index (Duplicate, insert with name "
+                  "reference) is resolved against another entry" % [(x[:3], x[3:]) for x in bad[:3]], "%d states" % nst)
     ctx.assume("C20 is claimed for these structural clauses only; agreement of the two tables over long histories is not decided")
